@@ -305,14 +305,18 @@ def run(prop, tier, seed):
                 r2 = verus_run.run_kernel(k, REPO, sdir, smt_seed=seed + 17)
                 stability.append(dict(kernel=k, smt_random_seed=seed + 17, status=r2['status'], verified=r2.get('verified'), errors=r2.get('errors_excl_canary')))
         # ---------------- power check (thorough tier, scratch copies only)
-        if tier == 'thorough' and not violations and all(r['status'] == 'ok' for r in verus_results):
+        known_obs = set(k['obligation'] for k in known['findings'] if k['property'] == prop)
+
+        def clean(r):   # verified, or failing only in obligations recorded as known findings of this property
+            return r['status'] == 'ok' or (r['status'] == 'failed' and all(f['obligation'] in known_obs or (f['props'] and prop not in f['props']) for f in r.get('failed', [])))
+        if tier == 'thorough' and not violations and all(clean(r) for r in verus_results):
             mutant_results = mutants.run_for_kernels(set(kernels), REPO)
             for m in mutant_results:
                 if m['outcome'] == 'SURVIVED':
                     undecided.append('weak contract: mutant %s of kernel %s survives' % (m['id'], m['kernel']))
         # ---------------- reachability behind every precondition (thorough tier): `assert(false)` at the start of every
         # function under contract must FAIL; one that verifies has a contradictory `requires` (vacuous contract)
-        if tier == 'thorough' and not violations and all(r['status'] == 'ok' for r in verus_results):
+        if tier == 'thorough' and not violations and all(clean(r) for r in verus_results):
             for k in kernels:
                 pr = verus_run.reach_probe(k, REPO, os.path.join(scratch, 'verus-probe-' + k))
                 reach.append(pr)
@@ -378,8 +382,11 @@ def run(prop, tier, seed):
         undecided.append('no obligations were generated (vacuous run)')
     write_json(os.path.join(OUT, 'evidence', prop + '.json'), ev)
     # ---------------- verdict
+    printed = set()
     for k, _ in known_hits:
-        print('KNOWN-FINDING: property=%s %s' % (prop, k['what']))
+        if k['id'] not in printed:     # one line per recorded finding (it may fail at several sites of the same caller)
+            printed.add(k['id'])
+            print('KNOWN-FINDING: property=%s %s' % (prop, k['what']))
     for s in stale:
         print('note: proof_script_stale obligation=%s (complete Kani proof of the same clause holds)' % s['obligation'])
     if violations:
